@@ -136,6 +136,10 @@ let pvdoc d =
   plist (fun (k, v) -> pstr k; popt_with (plist pstr) v) d.vd_styles;
   popt_with (fun (a, b) -> pz a; pz b) d.vd_tsmap
 
+(* suites of the per-format driver files (ocaml/drv_*.ml), registered at start-up *)
+let extra : (string, rd -> unit) Hashtbl.t = Hashtbl.create 64
+let register (name : string) (f : rd -> unit) : unit = Hashtbl.replace extra name f
+
 let run_case (suite : string) (r : rd) : unit =
   match suite with
   | "order" -> plist pitem (order (rlist ritem r))
@@ -213,18 +217,5 @@ let run_case (suite : string) (r : rd) : unit =
     else (Buffer.add_string b "NS "; pres (fun _ -> ()) res)
   | "trimspace" -> pstr (trim_space (rstr r))
   | "atoi" -> poptz (atoi (rstr r))
-  | _ -> failwith ("unknown suite " ^ suite)
+  | _ -> (match Hashtbl.find_opt extra suite with Some f -> f r | None -> failwith ("unknown suite " ^ suite))
 
-let () =
-  try
-    while true do
-      let l = input_line stdin in
-      let toks = Array.of_list (List.filter (fun s -> s <> "") (String.split_on_char ' ' l)) in
-      if Array.length toks > 0 then begin
-        Buffer.clear b;
-        (try run_case toks.(0) { toks; pos = 1 }
-         with e -> (Buffer.clear b; Buffer.add_string b ("DRIVER-ERROR " ^ Printexc.to_string e)));
-        print_string (String.trim (Buffer.contents b)); print_newline ()
-      end
-    done
-  with End_of_file -> ()
